@@ -96,3 +96,63 @@ func VerifC01_AppRestart() {
 	zz.Assert("C01.app.same-committed-data", bytes.Equal(qa.Value, qb.Value) && bytes.Equal(qa.Value, []byte("3")))
 	zz.Reach("C01.app.end")
 }
+
+// VerifC11_ReadOnlyCallsOnRealApp: CheckTx, Query(app/simulate), Query(store/...), Query(custom/...) - at a symbolic
+// position of a block (before BeginBlock, between the transactions, after EndBlock) and at symbolic heights - never
+// change state: the replica that serves them commits the same app hashes as one that does not, and a later
+// transaction sees what it would have seen.
+func VerifC11_ReadOnlyCallsOnRealApp() {
+	a, b := vOpenApp(dbm.NewMemDB()), vOpenApp(dbm.NewMemDB())
+	for _, v := range []*vRealApp{a, b} {
+		v := v
+		v.app.QueryRouter().AddRoute("kv", func(ctx sdk.Ctx, path []string, req abci.RequestQuery) ([]byte, sdk.Error) {
+			return ctx.KVStore(v.data).Get(req.Data), nil
+		})
+		v.app.InitChain(abci.RequestInitChain{ChainId: "c"})
+	}
+	readonly := func(v *vRealApp, latest int64) {
+		switch zz.Choice("call", 5) {
+		case 0:
+			v.app.CheckTx(abci.RequestCheckTx{Tx: []byte("a=9")})
+		case 1:
+			v.app.Query(abci.RequestQuery{Path: "/app/simulate", Data: []byte("a=8")})
+		case 2:
+			v.app.Query(abci.RequestQuery{Path: "/store/data/key", Data: []byte("a"), Height: zz.Int64("qheight", 0, 3), Prove: zz.Bool("prove")})
+		case 3:
+			v.app.Query(abci.RequestQuery{Path: "/custom/kv/get", Data: []byte("a"), Height: zz.Int64("qheight", 0, 3)})
+		case 4:
+			v.app.Query(abci.RequestQuery{Path: "/app/simulate", Data: []byte("garbage")})
+		}
+		_ = latest
+	}
+	when := zz.Choice("when", 4)
+	atHeight := int64(1 + zz.Choice("at_height", 2))
+	txs := [][][]byte{{[]byte("a=1"), []byte("b=2")}, {[]byte("a=3"), []byte("c=4")}}
+	for h := int64(1); h <= 2; h++ {
+		// replica b: plain block
+		hb := b.block(h, txs[h-1])
+		// replica a: the same block with one read-only call somewhere
+		hit := h == atHeight
+		if hit && when == 0 {
+			readonly(a, h-1)
+		}
+		a.app.BeginBlock(abci.RequestBeginBlock{Header: abci.Header{Height: h, ChainID: "c"}})
+		a.app.DeliverTx(abci.RequestDeliverTx{Tx: txs[h-1][0]})
+		if hit && when == 1 {
+			readonly(a, h-1)
+		}
+		a.app.DeliverTx(abci.RequestDeliverTx{Tx: txs[h-1][1]})
+		if hit && when == 2 {
+			readonly(a, h-1)
+		}
+		a.app.EndBlock(abci.RequestEndBlock{Height: h})
+		if hit && when == 3 {
+			readonly(a, h-1)
+		}
+		ha := a.app.Commit().Data
+		zz.Assert("C11.readonly.same-app-hash-as-undisturbed-replica", bytes.Equal(ha, hb))
+	}
+	qa := a.app.Query(abci.RequestQuery{Path: "/store/data/key", Data: []byte("a"), Height: 2})
+	zz.Assert("C11.readonly.committed-value-is-the-delivered-one", bytes.Equal(qa.Value, []byte("3")))
+	zz.Reach("C11.readonly.end")
+}
